@@ -45,6 +45,23 @@
  *                             left out of the "unchanged" comparison, but it is still walked, must still
  *                             be valid and is released by the caller)
  *
+ * direct use of the print-buffer API on one driver-held buffer (printbuf.h is public):
+ *   Pn                        printbuf_new            Pf   printbuf_free        Pr   printbuf_reset
+ *   Pa<hex>                   printbuf_memappend(pb, bytes, n)
+ *   Pm<off>,<c>,<len>         printbuf_memset
+ *   Ps<f>,<hexstr>,<int>      sprintbuf(pb, FORMAT[f], …) with the string s and the int d:
+ *                             0 "%s"(s)  1 "%d"(d)  2 "head:<%s>"(s)  3 "%s=%d;"(s,d)  4 "%0*d"(d,7)
+ *                             5 "%s|%d|%s"(s,d,s)  6 "%-*s|"(d,s)  7 "%.3f/%x/%c%s"(d/7.0,d,'q',s)
+ *                             (outputs of more than 127 bytes go through vasprintf: a temporary that the
+ *                             controlled allocator does not hand out)
+ *   the buffer is part of the state dump: pb=<bpos>:<contents as hex>
+ *
+ * Blocks the library obtains behind the controlled allocator (vasprintf, …) are accounted through
+ * the sanitizer's heap statistics: the bytes allocated in the process before a run and after the
+ * caller released everything must be equal; a difference that repeats when the run is repeated is
+ * printed as h<bytes> after the leak count (only when the controlled allocator's own count is 0).
+ * The fault-free workload is run a second time to apply the same test to it (!HLEAK<bytes>).
+ *
  * observation:  n=<N> base=<res0>|<res1>…@<state> ks=<tok>,<tok>,…
  *   res_i   result of test operation i in the fault-free run (rc / text as hex / error code)
  *   state   typed dump of all registers after the fault-free run
@@ -63,11 +80,18 @@
 #include "json_patch.h"
 #include "printbuf.h"
 #include <unistd.h>
+#if defined(__SANITIZE_ADDRESS__)
+extern size_t __sanitizer_get_current_allocated_bytes(void);   /* sanitizer/allocator_interface.h */
+static long heap_now(void) { return (long)__sanitizer_get_current_allocated_bytes(); }
+#else
+static long heap_now(void) { return 0; }
+#endif
 const char *DOMAIN = "oom";
 
 #define NREG 10
 #define MAXOPS 32
 static struct json_object *regs[NREG];
+static struct printbuf *pbs;      /* the driver-held print buffer of the P operations */
 
 /* blocks the workload itself must keep alive until the end of a run (constant keys) */
 static void *arena[64];
@@ -149,6 +173,13 @@ static char *state_dump(void)
 			dumpf(tf, regs[i]); fclose(tf); (free)(tb);
 			fprintf(f, "r%d=~;", i);
 		} else if (regs[i]) { fprintf(f, "r%d=", i); dumpf(f, regs[i]); fputc(';', f); }
+	if (pbs) {
+		int b;
+		fprintf(f, "pb=%d:", pbs->bpos);
+		if (pbs->bpos <= 0) fputc('-', f);
+		for (b = 0; b < pbs->bpos; b++) fprintf(f, "%02x", (unsigned char)pbs->buf[b]);
+		fputc(';', f);
+	}
 	if (xa_count != c0) dump_allocated = 1;
 	if (fmt_used) {
 		struct json_object *probe = json_object_new_double(1.5);
@@ -278,6 +309,50 @@ static char *exec_op(char *op, int *isfail, int *bad)
 	char *a[6]; int na, r, c, d;
 	*isfail = 0; *bad = 0;
 	res_open();
+	if (op[0] == 'P') {
+		int rc = 0;
+		if (op[1] == 'n') {
+			if (pbs) { *bad = 1; return res_close(); }
+			pbs = printbuf_new();
+			fprintf(res_f, pbs ? "ok" : "NULL");
+			*isfail = !pbs;
+			return res_close();
+		}
+		if (!pbs) { *bad = 1; return res_close(); }
+		if (op[1] == 'f') { printbuf_free(pbs); pbs = NULL; fprintf(res_f, "ok"); }
+		else if (op[1] == 'r') { printbuf_reset(pbs); fprintf(res_f, "ok"); }
+		else if (op[1] == 'a') {
+			size_t n; unsigned char *b = unhex(op + 2, &n);
+			rc = printbuf_memappend(pbs, (const char *)b, (int)n);
+			(free)(b);
+			fprintf(res_f, "%d", rc); *isfail = rc < 0;
+		} else if (op[1] == 'm') {
+			na = fields(op + 2, a, 6);
+			if (na < 3) { *bad = 1; return res_close(); }
+			rc = printbuf_memset(pbs, atoi(a[0]), atoi(a[1]), atoi(a[2]));
+			fprintf(res_f, "%d", rc); *isfail = rc < 0;
+		} else if (op[1] == 's') {
+			size_t n; unsigned char *b; char *z; int dv;
+			na = fields(op + 2, a, 6);
+			if (na < 3) { *bad = 1; return res_close(); }
+			b = unhex(a[1], &n); z = cstr_of(b, n); (free)(b);
+			dv = atoi(a[2]);
+			switch (atoi(a[0])) {
+			case 0: rc = sprintbuf(pbs, "%s", z); break;
+			case 1: rc = sprintbuf(pbs, "%d", dv); break;
+			case 2: rc = sprintbuf(pbs, "head:<%s>", z); break;
+			case 3: rc = sprintbuf(pbs, "%s=%d;", z, dv); break;
+			case 4: rc = sprintbuf(pbs, "%0*d", dv, 7); break;
+			case 5: rc = sprintbuf(pbs, "%s|%d|%s", z, dv, z); break;
+			case 6: rc = sprintbuf(pbs, "%-*s|", dv, z); break;
+			case 7: rc = sprintbuf(pbs, "%.3f/%x/%c%s", dv / 7.0, (unsigned)dv, 'q', z); break;
+			default: *bad = 1;
+			}
+			(free)(z);
+			fprintf(res_f, "%d", rc); *isfail = rc < 0;
+		} else *bad = 1;
+		return res_close();
+	}
 	if (strlen(op) < 3) { *bad = 1; return res_close(); }
 	if (op[0] == 'b') {
 		const char *p; struct json_object *o; int rc;
@@ -486,12 +561,14 @@ static int has_op(const char *list, const char *two)
 static char *base_res[MAXOPS], *base_state[MAXOPS], *base_state_m[MAXOPS];
 static int nbase;
 
-struct outcome { char cls; int opi; char owned; long leak; long n; int bad; int fired; };
+struct outcome { char cls; int opi; char owned; long leak; long n; int bad; int fired; long hidden; };
 
-/* run setup + test once; k < 0: the fault-free reference run (records base_*) */
+/* run setup + test once; k == -1: the fault-free reference run (records base_*);
+ * k == -2: a second fault-free run, compared and accounted like a fault run */
 static struct outcome run_workload(const char *setup, const char *test, long k, long j2, size_t limit)
 {
-	struct outcome oc = {'N', -1, '-', 0, 0, 0, 0};
+	struct outcome oc = {'N', -1, '-', 0, 0, 0, 0, 0};
+	long heap0 = heap_now();
 	char *s = strdup(setup), *t = strdup(test), *save = NULL, *op;
 	long live0, c0; int i;
 	xa_reset();
@@ -519,7 +596,7 @@ static struct outcome run_workload(const char *setup, const char *test, long k, 
 		post = state_dump();
 		if (inplace >= 0) { mask_reg = inplace; post_m = state_dump(); mask_reg = -1; }
 		if (bad) oc.bad = 1;
-		if (k < 0) {
+		if (k == -1) {
 			base_res[i] = res; base_state[i] = post; base_state_m[i] = post_m; nbase = i + 1;
 			(free)(pre); (free)(pre_m);
 			continue;
@@ -549,8 +626,19 @@ static struct outcome run_workload(const char *setup, const char *test, long k, 
 		json_c_set_serialization_double_format(NULL, JSON_C_OPTION_GLOBAL);
 		json_c_set_serialization_double_format(NULL, JSON_C_OPTION_THREAD);
 	}
+	if (pbs) { printbuf_free(pbs); pbs = NULL; }
 	oc.leak = xa_live - live0;
 	(free)(s); (free)(t);
+	if (k != -1) oc.hidden = heap_now() - heap0;
+	return oc;
+}
+
+/* a run whose heap balance is off is repeated: what the process allocates once (lazily, on the
+ * first use of some libc facility) does not show up the second time */
+static struct outcome run_checked(const char *setup, const char *test, long k, long j2, size_t limit)
+{
+	struct outcome oc = run_workload(setup, test, k, j2, limit);
+	if (oc.hidden != 0 && oc.leak == 0) oc = run_workload(setup, test, k, j2, limit);
 	return oc;
 }
 
@@ -560,6 +648,7 @@ static void print_tok(const char *label, struct outcome oc, int *first)
 	*first = 0;
 	if (oc.cls == 'N') printf("%s:N:-%ld", label, oc.leak);
 	else printf("%s:%c%d:%c%ld", label, oc.cls, oc.opi, oc.owned, oc.leak);
+	if (oc.leak == 0 && oc.hidden != 0) printf("h%ld", oc.hidden);
 }
 
 void run_case(char *rest)
@@ -577,6 +666,11 @@ void run_case(char *rest)
 	for (i = 0; i < nbase; i++) printf("%s%s", i ? "|" : "", base_res[i]);
 	printf("@%s", nbase ? base_state[nbase - 1] : "");
 	if (b.leak) printf("!LEAK%ld", b.leak);
+	else {
+		struct outcome b2 = run_checked(setup, test, -2, -1, 0);
+		if (b2.cls != 'N') printf("!UNSTABLE");
+		else if (b2.hidden != 0) printf("!HLEAK%ld", b2.hidden);
+	}
 	printf(" ks=");
 	save = NULL;
 	for (item = strtok_r(ks, ",", &save); item; item = strtok_r(NULL, ",", &save)) {
@@ -584,14 +678,14 @@ void run_case(char *rest)
 			for (k = 0; k < b.n; k++) {
 				char lab[32];
 				snprintf(lab, sizeof lab, "%ld", k);
-				print_tok(lab, run_workload(setup, test, k, -1, 0), &first);
+				print_tok(lab, run_checked(setup, test, k, -1, 0), &first);
 			}
 		} else {
 			char *e; long j2 = -1; size_t lim = 0;
 			k = strtol(item, &e, 10);
 			if (*e == '+') j2 = strtol(e + 1, NULL, 10);
 			else if (*e == '^') lim = (size_t)strtoull(e + 1, NULL, 10);
-			print_tok(item, run_workload(setup, test, k, j2, lim), &first);
+			print_tok(item, run_checked(setup, test, k, j2, lim), &first);
 		}
 	}
 	if (first) putchar('-');
